@@ -52,6 +52,8 @@ pub fn response_bytes(mid: i64, kind: &str, tok: u64) -> Vec<u8> {
     // every third message is longer than 127 bytes, so that its outer length is in the long form (a read may then end inside the header)
     let big = tok % 3 == 0; let pad = vec![b'x'; 150];
     let op = match kind {
+        // "j": a jumbo entry (70 KiB or 300 KiB value): same meaning as "e", a very different size
+        "j" => entry(format!("t{}", tok).as_bytes(), &[(b"cn", vec![b"v".to_vec()]), (b"blob", vec![vec![b'j'; if tok % 2 == 0 { 70_000 } else { 300_000 }]])]),
         "e" => if big { entry(format!("t{}", tok).as_bytes(), &[(b"cn", vec![b"v".to_vec()]), (b"description", vec![pad.clone()])]) } else { entry(format!("t{}", tok).as_bytes(), &[(b"cn", vec![b"v".to_vec()])]) },
         "r" => c(TagClass::Application, 19, if big { vec![octets(format!("ldap://t{}", tok).as_bytes()), octets(&pad)] } else { vec![octets(format!("ldap://t{}", tok).as_bytes())] }),
         "i" => c(TagClass::Application, 25, vec![p(TagClass::Context, 0, if big { &pad[..] } else { b"1.2.3" }), p(TagClass::Context, 1, t.as_bytes())]),
@@ -104,6 +106,9 @@ async fn run_script(steps: Vec<String>) -> (String, Option<String>) {
     let mut kinds: Vec<String> = vec![];
     let mut sent_at_start: Vec<usize> = vec![];
     for tok in &steps {
+        // G:<kind>,<kind>,...  starts several operations back to back, before the driver gets to run: one settle for the group
+        let subs: Vec<String> = if tok.starts_with("G:") { tok[2..].split(',').map(|k| format!("S:{}:-", k)).collect() } else { vec![tok.clone()] };
+        for tok in &subs {
         let f: Vec<&str> = tok.split(':').collect();
         match f[0] {
             "S" if main.is_none() => {}
@@ -187,6 +192,11 @@ async fn run_script(steps: Vec<String>) -> (String, Option<String>) {
                     let _ = server.write_all(&bytes[cut..n]).await;
                 }
             }
+            // L:<mid>:<count>:<first token>  a flood: <count> entries for one search in a single write (more than any bounded queue would hold)
+            "L" => {
+                let (mid, count, first): (i64, u64, u64) = (f[1].parse().unwrap(), f[2].parse().unwrap(), f[3].parse().unwrap());
+                if server_open { let mut all = vec![]; for t in first..first + count { all.extend(response_bytes(mid, "e", 3 * t + 1)); sent_by_id.entry(mid).or_default().push(3 * t + 1); } let _ = server.write_all(&all).await; }
+            }
             "A" => { tokio::time::advance(Duration::from_millis(f[1].parse().unwrap())).await; }
             "N" | "F" | "C" => { let o: usize = f[1].parse().unwrap(); if let Some(Some(tx)) = cmds.get(o) { let _ = tx.send(if f[0] == "N" { Cmd::Next } else if f[0] == "C" { Cmd::NextCancelled } else { Cmd::Finish }); } }
             "M" => {
@@ -213,6 +223,7 @@ async fn run_script(steps: Vec<String>) -> (String, Option<String>) {
             // T:<last>:<ids>  positions the id table; ids "~" = empty, "=" = keep the ids in use now (a faithful picture of the counter having come round)
             "T" => { if let Some(h) = &main { let ids: Vec<i32> = if f[2] == "~" { vec![] } else if f[2] == "=" { table.lock().unwrap().1.iter().copied().collect() } else { f[2].split(',').map(|x| x.parse().unwrap()).collect() }; h.verif_set_id_table(f[1].parse().unwrap(), &ids); table_reset = true; } }
             _ => {}
+        }
         }
         settle().await;
         // ---- observe
@@ -287,14 +298,23 @@ fn pick_mid(rng: &mut Rng, g: &GenState) -> (i64, String) {
 fn gen_script(rng: &mut Rng, len: usize, flavour: u64) -> String {
     let mut g = GenState { kinds: vec![], tmos: vec![], toks: 0, finished_streams: vec![] };
     let mut s: Vec<String> = vec![];
-    let mut ended = false;
+    let mut ended = false; let mut flooded = false;
     for _ in 0..len {
         let roll = rng.below(100);
-        if g.kinds.is_empty() || roll < 28 {
+        if roll < 3 && flavour != 1 {
+            // a group of 2-4 operations started in one go; an Unbind may sit in the middle
+            let k = 2 + rng.below(3); let mut ks = vec![];
+            for j in 0..k { let kind = if j > 0 && flavour == 3 && rng.chance(1, 3) { "unbind".to_string() } else { rng.pick(&["single", "single", "sd", "sa"]).to_string() }; ks.push(kind.clone()); g.kinds.push(kind); g.tmos.push(None); g.finished_streams.push(false); }
+            s.push(format!("G:{}", ks.join(",")));
+        } else if g.kinds.is_empty() || roll < 28 {
             let kind = match rng.below(10) { 0 | 1 | 2 | 3 => "single".to_string(), 4 | 5 => "sd".into(), 6 | 7 => "sa".into(), 8 => format!("ab{}", if g.kinds.is_empty() { 5 } else { 1 + rng.below(g.kinds.len() as u64 + 1) }), _ => if flavour == 3 && rng.chance(1, 3) { "unbind".into() } else { "single".into() } };
             let tmo = if flavour == 2 || rng.chance(1, 5) { Some(*rng.pick(&[0u64, 1, 1000, 5000, u64::MAX])) } else { None };
             s.push(format!("S:{}:{}", kind, tmo.map(|t| if t == u64::MAX { "max".to_string() } else { t.to_string() }).unwrap_or("-".into())));
             g.kinds.push(kind); g.tmos.push(tmo); g.finished_streams.push(false);
+        } else if roll < 31 && flavour == 0 && !flooded && g.kinds.iter().any(|k| k == "sd" || k == "sa") {
+            // at most one flood per script, on a search that exists
+            let o = g.kinds.iter().position(|k| k == "sd" || k == "sa").unwrap(); let count = 1100 + rng.below(500);
+            s.push(format!("L:{}:{}:{}", o + 1, count, g.toks + 1)); g.toks += count; flooded = true;
         } else if roll < 62 {
             let (mid, kind) = pick_mid(rng, &g);
             g.toks += 1;
@@ -308,7 +328,7 @@ fn gen_script(rng: &mut Rng, len: usize, flavour: u64) -> String {
             for j in 0..k { g.toks += 1;
                 if j == unsol_at { parts.push(format!("{}.x.{}", *rng.pick(&[0i64, 0, 99]), g.toks)); continue; }
                 let (mid, kind) = pick_mid(rng, &g);
-                let kk = if kind == "sd" { *rng.pick(&["e", "e", "r", "i", "d"]) } else if kind == "sa" { *rng.pick(&["e", "e", "r", "i", "d"]) } else { "x" };
+                let kk = if kind == "sd" || kind == "sa" { if rng.chance(1, 10) { "j" } else { *rng.pick(&["e", "e", "r", "i", "d"]) } } else { "x" };
                 parts.push(format!("{}.{}.{}", mid, kk, g.toks)); }
             // a cancelled next() that is still queued behind a blocked one would meet a cut burst half-way (which of its messages it sees is
             // a matter of timing inside one step): after a C step bursts come in one write
